@@ -61,6 +61,20 @@ PROPS = {
             U("c12", "TestReplayBytes"),
         ],
     },
+    "C14": {
+        "level": "exploration",
+        "units": [
+            U("c14", "TestBPlus", T(1500, 4, 300), T(30000, 8, 2400)),
+            U("c14", "TestRocks", T(25, 12, 300, shrinktime="40s"), T(400, 16, 2400, shrinktime="120s"), needs=["nodeexec"]),
+            U("c14", "TestRocksAtomicBatch", T(None, 1, 300), T(None, 1, 900), needs=["nodeexec"]),
+        ],
+    },
+    "C15": {
+        "level": "exploration",
+        "units": [
+            U("c15", "TestLogStore", T(25, 16, 300, shrinktime="40s"), T(400, 16, 2400, shrinktime="120s"), needs=["nodeexec"]),
+        ],
+    },
     "C13": {
         "level": "exploration",
         "units": [
